@@ -5,6 +5,7 @@ CONSTANTS
   Shapes <- ShapesB
   Types = {"i8", "u16", "i32", "f32", "f64", "c8"}
   RasDims <- RDimsB
+  ScaleSets <- ScalesAll
   MaxObjs = 13
   MaxOps = 10
   Mix = TRUE
